@@ -65,7 +65,7 @@ Definition nft_body (f : fields) (z : zone) (prev_s : Z) (w : civil) : civil + r
   end.
 
 Definition next_fire_time_zone (f : fields) (z : zone) (prev : Z) : res :=
-  let prev_s := Z.quot prev nanos in        (* prev / int64(time.Second): truncated division *)
+  let prev_s := prev / nanos in             (* the whole second at or before prev: floor, also for prev < 0 (fix D10) *)
   match civil_from_unix (offset_at z prev_s) prev_s with
   | None => ModelError
   | Some w0 =>
